@@ -135,7 +135,9 @@ package trzsz
 
 //@ func chan:trzszBuffer.bufCh.send trusted
 //@   requires len(p0) > 0
-//@   assigns nothing
+//@   assigns sentCnt, sentBytes
+//@   ensures sentCnt == upd(old(sentCnt), recv, old(sentCnt)[recv] + 1)
+//@   ensures sentBytes == upd(old(sentBytes), recv, old(sentBytes)[recv] + len(p0))
 
 //@ # representation invariant of the cursor. A chunk that has been read to its end may
 //@ # stay in nextBuf (it is never looked at again); only an unfinished chunk is constrained.
@@ -161,6 +163,9 @@ package trzsz
 
 //@ func trzszBuffer.addBuffer
 //@   requires len(buf) > 0
+//@   assigns sentCnt, sentBytes
+//@   ensures sentCnt == upd(old(sentCnt), b, old(sentCnt)[b] + 1)
+//@   ensures sentBytes == upd(old(sentBytes), b, old(sentBytes)[b] + len(buf))
 //@ end
 
 //@ func trzszBuffer.nextBuffer
@@ -1066,4 +1071,65 @@ package trzsz
 //@ end
 //@ func TrzszRelay.sendConfig
 //@   assigns wlog, wlen
+//@ end
+
+// ===========================================================================
+// C13  relay byte conservation: the sequential obligations of the lock invariant (relay.go)
+// ===========================================================================
+
+//@ # A chunk is parked exactly when - with the lock held - the status read is still "handshaking"
+//@ # (and the tunnel rule allows it); otherwise nothing is parked and the status seen under the lock
+//@ # is returned, so that the caller forwards the chunk itself. The lock is released on every path.
+//@ func TrzszRelay.addHandshakeBuffer
+//@   requires len(data) > 0
+//@   assigns sentCnt, sentBytes, lockHeld
+//@   ensures [C13] r1 ==> r0 == kRelayHandshaking && sentCnt == upd(old(sentCnt), buffer, old(sentCnt)[buffer] + 1) && \
+//@       sentBytes == upd(old(sentBytes), buffer, old(sentBytes)[buffer] + len(data))
+//@   ensures [C13] !r1 ==> sentCnt == old(sentCnt) && sentBytes == old(sentBytes)
+//@   ensures [C13] !lockHeld[r.bufferLock]
+//@   before atomic.Int32.Load assert [C13] lockHeld[r.bufferLock]
+//@   before trzszBuffer.addBuffer assert [C13] lockHeld[r.bufferLock]
+//@ end
+
+//@ # Flushing, with the lock held throughout: first everything parked from the client (the unread rest
+//@ # of the current chunk, then the queue, in stream order) goes to the server side, then the same for
+//@ # the other direction; only after both queues were found empty does the status leave "handshaking".
+//@ func TrzszRelay.flushHandshakeBuffer
+//@   requires relayBufs(r)
+//@   ensures [C13] inLen - old(inLen) == cur(r.stdinBuffer) - old(cur(r.stdinBuffer)) && \
+//@       (forall k int {inLog[k]} :: old(inLen) <= k && k < inLen ==> inLog[k] == G[r.stdinBuffer][old(cur(r.stdinBuffer)) + k - old(inLen)])
+//@   ensures [C13] outLen - old(outLen) == cur(r.stdoutBuffer) - old(cur(r.stdoutBuffer)) && \
+//@       (forall k int {outLog[k]} :: old(outLen) <= k && k < outLen ==> outLog[k] == G[r.stdoutBuffer][old(cur(r.stdoutBuffer)) + k - old(outLen)])
+//@   ensures [C13] !lockHeld[r.bufferLock]
+//@   before trzszBuffer.popBuffer assert [C13] lockHeld[r.bufferLock]
+//@   before atomic.Int32.Store assert [C13] lockHeld[r.bufferLock] && result_of("trzszBuffer.popBuffer", 0, 0) == nil && result_of("trzszBuffer.popBuffer", 1, 0) == nil
+//@   before TrzszRelay.resetToStandby assert [C13] lockHeld[r.bufferLock] && result_of("trzszBuffer.popBuffer", 0, 0) == nil && result_of("trzszBuffer.popBuffer", 1, 0) == nil
+//@   loop 1
+//@     invariant relayBufs(r) && lockHeld[r.bufferLock]
+//@     invariant [C13] inLen - old(inLen) == cur(r.stdinBuffer) - old(cur(r.stdinBuffer)) && outLen == old(outLen) && \
+//@       cur(r.stdoutBuffer) == old(cur(r.stdoutBuffer))
+//@     invariant [C13] forall k int {inLog[k]} :: old(inLen) <= k && k < inLen ==> inLog[k] == G[r.stdinBuffer][old(cur(r.stdinBuffer)) + k - old(inLen)]
+//@   loop 2
+//@     invariant relayBufs(r) && lockHeld[r.bufferLock]
+//@     invariant [C13] inLen - old(inLen) == cur(r.stdinBuffer) - old(cur(r.stdinBuffer)) && \
+//@       outLen - old(outLen) == cur(r.stdoutBuffer) - old(cur(r.stdoutBuffer))
+//@     invariant [C13] forall k int {inLog[k]} :: old(inLen) <= k && k < inLen ==> inLog[k] == G[r.stdinBuffer][old(cur(r.stdinBuffer)) + k - old(inLen)]
+//@     invariant [C13] forall k int {outLog[k]} :: old(outLen) <= k && k < outLen ==> outLog[k] == G[r.stdoutBuffer][old(cur(r.stdoutBuffer)) + k - old(outLen)]
+//@ end
+
+//@ # ASSUMED: runs "tmux refresh-client"; no effect on memory
+//@ func tmuxRefreshClient trusted pure
+//@ end
+//@ func TrzszRelay.resetToStandby pure
+//@ end
+
+//@ # The input pump: every byte read from the client is either parked (while a handshake is in
+//@ # progress) or passed on to the server side - never both, never neither: the byte counts balance
+//@ # after every iteration. (Windows adds a Ctrl-Z of its own at end of input; excluded here.)
+//@ func TrzszRelay.wrapInput
+//@   requires r.stdinBuffer != nil
+//@   loop 1
+//@     invariant r.stdinBuffer != nil
+//@     invariant [C13] !windowsRuntime ==> rdLen[r.clientIn] - old(rdLen)[r.clientIn] == \
+//@         (sentBytes[r.stdinBuffer] - old(sentBytes)[r.stdinBuffer]) + (inLen - old(inLen))
 //@ end
